@@ -39,7 +39,7 @@ ASSUMPTIONS = [
     "the liveness poll is modelled as one atomic event (queue empty and no member process alive); the implementation evaluates is_alive() BEFORE the timed get(), and a process that is no longer alive has flushed its queue message, so the two observations together imply the atomic condition",
     "one model run = one _solve round plus the queries of that round; rounds of a repeated solve use fresh channels and are modelled independently (the stale _ext_solver kept across a raising solve is not modelled; get_model after an unsat or raising solve is API misuse and not exercised)",
     "exit_on_exception=True makes the first exception win by design: failures_ignored is stated for exit_on_exception=False, and an error from a member that really raised is accepted when the option is on",
-    "command histories are legal (never pop more levels than are open), use no reset_assertions (Portfolio._reset_assertions is not decorated, unlike the TrackSolver model) and no non-literal assumptions; Portfolio.solve ignores its assumptions (known finding solve-ignores-assumptions), so the model commands for solve are SSolve None",
+    "command histories are legal (never pop more levels than are open) and use no reset_assertions (Portfolio._reset_assertions is not decorated, unlike the TrackSolver model); solve(assumptions) takes any Boolean formulas: Portfolio._solve conjoins them into the formula of the round WITHOUT opening a level, so for the bookkeeping its model command is SSolve None (TrackSolver's `SSolve (Some f)` is the native wrappers' push-assert-pending_pop scheme, which Portfolio does not use); the round itself is judged on assertions + assumptions",
     "members agree on the verdict (hypothesis of verdict_agreed); a member that answers wrongly is outside the property",
     "Queue.put is modelled as atomic with the child's move to the control loop (the feeder thread's delay only postpones a message that no longer matters once a winner exists)",
     "an exception object that cannot be unpickled in the parent (constructor with required arguments) is not modelled and not exercised",
@@ -47,7 +47,7 @@ ASSUMPTIONS = [
 
 RULE = ("scenarios: every assignment of {answer, raise|unknown, silent exit} to 2 and 3 members x exit_on_exception, sampled 4-member "
         "assignments, completion-order / near-tie timing variants of the answering members, early failures with a single answering member 0.3-0.6 s later (several liveness-poll periods), repeated solve / get_model / get_value / "
-        "push-pop cycles; command histories (2 assumption probes + 27 directed: is_sat|is_valid|is_unsat inside open levels x 5 level "
+        "push-pop cycles; command histories (3 solve(assumptions) probes + 27 directed: is_sat|is_valid|is_unsat inside open levels x 5 level "
         "shapes with pop(1..2) right after the query x with/without get_model/get_value in between, then a contradicting assertion and "
         "solve; + 60 quick / 500 thorough random legal histories of 6-10 commands) on 2-3 member portfolios, mirrored on a reference "
         "frame stack (verdicts by truth table, models by evaluation, `assertions` read once at the end) and compared step by step with "
@@ -362,8 +362,8 @@ def worker(sc):
                     if kind == "solve":
                         api = r = p.solve()
                         extra = {}
-                    elif kind == "solve_assuming":   # assumption = a literal
-                        api = r = p.solve([to_pysmt(op[1])])
+                    elif kind == "solve_assuming":   # op[1] = list of assumptions (any Boolean formulas)
+                        api = r = p.solve([to_pysmt(a) for a in op[1]])
                         extra = {}
                     else:
                         f = to_pysmt(op[1])
@@ -563,8 +563,11 @@ def analyse(sc, evs, hung, rc):
         elif kind in SOLVELIKE:
             flush_round()
             assertions = [a for lvl in stack for a in lvl]
+            nlive = len(assertions)
             if kind == "is_valid":
                 assertions = assertions + [["not", op[1]]]
+            elif kind == "solve_assuming":
+                assertions = assertions + list(op[1])
             elif kind != "solve":
                 assertions = assertions + [op[1]]
             verdict = brute_sat(assertions)
@@ -611,15 +614,15 @@ def analyse(sc, evs, hung, rc):
                     cur["state"] = "other"
                 elif not answering:
                     problems.append(("verdict-from-nowhere", "solve returned %s although no member answers" % e["res"]))
-                elif e["res"] != verdict and kind == "solve_assuming" and e["res"] == brute_sat(assertions[:-1]):
-                    problems.append(("solve-ignores-assumptions", "solve(assumptions=[%s]) returned %s, the verdict of the assertions %s "
-                                     "WITHOUT the assumption; with it they are %s" % (jstr(assertions[-1]), e["res"], [jstr(a) for a in assertions[:-1]],
-                                                                                    "sat" if verdict else "unsat")))
+                elif e["res"] != verdict and kind == "solve_assuming" and e["res"] == brute_sat(assertions[:nlive]):
+                    problems.append(("solve-ignores-assumptions", "solve(assumptions=%s) returned %s, the verdict of the assertions %s "
+                                     "WITHOUT the assumptions; with them they are %s" % ([jstr(a) for a in assertions[nlive:]], e["res"],
+                                                                                       [jstr(a) for a in assertions[:nlive]], "sat" if verdict else "unsat")))
                     cur["state"] = "other"
                 elif e["res"] != verdict:
                     problems.append(("wrong-verdict", "%s returned %s, but the live assertions %s%s are %s"
-                                     % (kind, e.get("api", e["res"]), [jstr(a) for a in assertions[:len(assertions) - (kind != "solve")]],
-                                        "" if kind == "solve" else " with %s" % jstr(assertions[-1]), "sat" if verdict else "unsat")))
+                                     % (kind, e.get("api", e["res"]), [jstr(a) for a in assertions[:nlive]],
+                                        "" if kind == "solve" else " with %s" % [jstr(a) for a in assertions[nlive:]], "sat" if verdict else "unsat")))
                 if cur["state"] == "returned" and (e["winner"] is None or modes[e["winner"]] not in ANSWERING):
                     problems.append(("survivor-did-not-answer", "the member kept for queries (%s) did not answer" % e["winner"]))
                     cur["state"] = "other"
@@ -808,7 +811,7 @@ class _Ref(object):
         elif k == "solve":
             self.model = brute_sat(self.live())
         elif k == "solve_assuming":
-            self.model = False
+            self.model = brute_sat(self.live() + list(op[1]))
         elif k == "is_valid":
             self.model = brute_sat(self.live() + [["not", op[1]]])
         elif k in ("is_sat", "is_unsat"):
@@ -864,7 +867,7 @@ def directed_histories():
 
 def random_history(rnd):
     """6-10 commands over push(n) / pop(n) / add / is_sat / is_valid / is_unsat / solve /
-    get_model / get_value, always legal (never pops more levels than are open)."""
+    solve(assumptions: 1-2 arbitrary formulas) / get_model / get_value, always legal (never pops more levels than are open)."""
     r = _Ref()
     target = rnd.randrange(6, 11)
     r.do(["add", rnd.choice(H_POOL)])
@@ -872,7 +875,7 @@ def random_history(rnd):
         depth = len(r.frames) - 1
         last = r.ops[-1][0]
         c = rnd.random()
-        if last in ONESHOT + ("solve", "get_model", "get_value") and depth and c < 0.45:
+        if last in ONESHOT + ("solve", "solve_assuming", "get_model", "get_value") and depth and c < 0.45:
             r.do(["pop", rnd.randrange(1, min(depth, 2) + 1)])     # pop right after a query
         elif c < 0.2:
             r.do(["push", rnd.choice([1, 1, 2])])
@@ -880,10 +883,12 @@ def random_history(rnd):
             r.do(["add", rnd.choice(H_POOL)])
         elif c < 0.75:
             r.do([rnd.choice(ONESHOT), rnd.choice(H_POOL)])
-        elif c < 0.85:
+        elif c < 0.8:
             r.do(["solve"])
+        elif c < 0.88:
+            r.do(["solve_assuming", [rnd.choice(H_POOL) for _ in range(rnd.choice([1, 1, 2]))]])
         elif c < 0.95 and r.model:
-            r.queries(rnd.choice("mv"), [r.ops[-1][1]] if last in ONESHOT else [])
+            r.queries(rnd.choice("mv"), [r.ops[-1][1]] if last in ONESHOT else (r.ops[-1][1] if last == "solve_assuming" else []))
         elif depth:
             r.do(["pop", rnd.randrange(1, min(depth, 2) + 1)])
     r.do(["solve"])
@@ -972,8 +977,11 @@ def scenarios(rnd, tier):
     # 8. command histories (the "repeated solve / get_model / push-pop cycles" part): one-shot
     #    queries inside open levels, pop(n) right after them, verdict-sensitive follow-ups; the
     #    portfolio's assertions are read once, at the END (reading them earlier clears a pending pop)
-    assume = [[["add", ["or", V("p"), V("q")]], ["solve_assuming", ["not", V("p")]], ["solve"], ["get_model"], ["assertions"]],
-              [["add", V("p")], ["push", 1], ["add", V("q")], ["solve_assuming", ["not", V("p")]], ["pop", 1], ["solve"], ["assertions"]]]
+    assume = [[["add", ["or", V("p"), V("q")]], ["solve_assuming", [["not", V("p")]]], ["get_model"], ["solve"], ["get_model"], ["assertions"]],
+              [["add", V("p")], ["push", 1], ["add", V("q")], ["solve_assuming", [["not", V("p")]]], ["pop", 1], ["solve"], ["assertions"]],
+              [["add", ["or", V("p"), V("q")]], ["solve_assuming", [["iff", V("p"), V("q")], ["not", V("q")]]],
+               ["solve_assuming", [["or", ["not", V("p")], ["not", V("q")]], V("p")]], ["get_value", "p", False], ["get_value", "q", False],
+               ["get_model"], ["assertions"]]]
     for ops in assume + directed_histories() + [random_history(rnd) for _ in range(60 if tier == "quick" else 500)]:
         n = rnd.choice([2, 2, 3])
         modes = ["answer"] * n
